@@ -99,7 +99,7 @@ def ppred_dom(v, sh, W):
 def lo(v, n, x):
     return ('lo', n, x)
 Fn('ppRed', 'void', 'a:io[2*n] mod:in[n] n:len stack:stack[ppRed_deep(n)]', rng(1), dict(mod=ppdivisor('n'), a=D_list(ppred_dom)),
-   f=lambda v: dict(a=lo(v, v.n, P.mod(v.a, v.mod))), **G)
+   f=lambda v: dict(a=lo(v, v.n, P.mod(v.a, v.mod))), risky=lambda v: v.mod == 1, **G)
 
 def trinomials(W, N):
     """(m, k) with m % 8 != 0, k > 0, m - k >= W, n = W_OF_B(m) <= N: every word count, (m - k) % W == 0 and != 0, k small and maximal"""
@@ -174,7 +174,7 @@ def _cls_ppinv(v):
     return None
 CAT['ppInvMod'].cls = CAT['ppDivMod'].cls = _cls_ppinv
 for _n in ('ppDiv', 'ppMod'):
-    CAT[_n].cls = lambda v: 'deg(b)=0' if v.b == 1 else None
+    CAT[_n].cls = lambda v: 'deg(b)=0' if v.b == 1 else ('b[m-1]=1' if v.b >> ((v.m - 1) * v.W) == 1 else None)
 CAT['ppRed'].cls = lambda v: 'mod=1' if v.mod == 1 else None
 for _n in ('ppGCD', 'ppExGCD', 'ppInvMod', 'ppDivMod', 'ppDiv', 'ppMod'):
     CAT[_n].weight = 3
